@@ -175,6 +175,23 @@ def run(chk: harness.Check):
             ok = "FractionLookupTable::lookup" in num_txt and "max_den" in num_txt and "fract" in num_txt
             chk.expect(ok, "C12.D2-limits", f"new_approx|{tag}|lookup", where,
                        f"numerator/denominator do not come from lookup(fract(value), max_den): {num_txt[:100]}", sample=f"{where}: num/den from lookup(value.fract(), max_den)")
+    # float -> u32 casts saturate: a whole part taken from such a cast must have the saturation value excluded
+    sat = []
+    for ci, cj, cs in f.iter_stmts():
+        rv = cs.get("rv", {})
+        if rv.get("k") == "bin" and rv["op"] == "Eq":
+            l, r = resolve(f, rv["l"]), resolve(f, rv["r"])
+            for a, b_ in ((l, r), (r, l)):
+                bt = full(b_)
+                if a[0] == "cast" and a[1].startswith("FloatToInt") and ("u32>::MAX" in bt or bt == "4294967295"):
+                    sat.append((cs["place"]["l"], full(strip_casts(a))))
+    for i, s, d in fracs + regs:
+        where = f"{f.file}:{s.get('line')}"
+        ok = any(any(f.edge_dominates(e, i) for e in bool_edges(f, dest)[1]) for dest, _ in sat)
+        chk.expect(ok, "C12.D2-limits", f"new_approx|{s['rv']['variant']}@{_tag(f, d) if s['rv']['variant'] == 'Fraction' else 'regular'}|no saturation", where,
+                   "a number is returned on a path where the saturating f64 -> u32 cast of the whole part was not excluded (whole == u32::MAX): "
+                   "values of 2^32 and above would be reported with a whole part of 4294967295",
+                   sample=f"{where}: dominated by `whole != u32::MAX`")
     for i, s, d in regs:
         where = f"{f.file}:{s.get('line')}"
         small = [c for c in cmps if "fract" in full(c[3]) and c[2] in ("Lt", "Le")]
